@@ -236,7 +236,7 @@ def oracle(case, impl, spec):
         if ng != '=':
             return 'step %d: get(-1..-len) = [%s] is not the sequence [%s] reversed' % (n, ng, b[2])
         if it != '=':
-            return 'step %d: iteration yields [%s], the abstract sequence is [%s]' % (n, it, b[2])
+            return 'step %d: iteration yields [%s] (forward from iter_init, or BACKWARD from iter_last), the abstract sequence is [%s]' % (n, it, b[2])
         if mm != b[3]:
             return 'step %d: mem of probes 0,1,2,7 = %s, the abstract sequence gives %s' % (n, mm, b[3])
     if len(pi) > len(ps):
